@@ -1294,6 +1294,7 @@ type c20run struct {
 	qid                 int
 	r                   *rng
 	randomEval          int
+	seq                 *c20seqState // histories of validations (c20_seq.go)
 }
 
 func hexList(xs []string) string {
@@ -1352,6 +1353,7 @@ func (c *c20run) emitQuery(text string, textSyms []string, pubs [][]string) {
 	}
 	c.stats["parsed"]++
 	c.qid++
+	c.seqRemember(text, textSyms, q)
 	typed := reflectNode(q)
 	if typed == nil {
 		c.stats["reflect-failed"]++
@@ -1538,7 +1540,15 @@ func runC20(o *opts) error {
 		c.oracle.close()
 		c.cfg.close()
 		c.cfgImpl.close()
+		c.seqClose()
 	}()
+	c.seqInit(o.out)
+
+	if rc := o.get("replayseq", ""); rc != "" {
+		err := c.seqReplay(rc)
+		writeJSON(o.out, "stats.json", map[string]interface{}{"stats": c.stats, "kinds": c.kinds, "symbol_keys": c20SymKeys()})
+		return err
+	}
 
 	if rc := o.get("replaycfg", ""); rc != "" {
 		data, err := os.ReadFile(rc)
@@ -1655,6 +1665,8 @@ func runC20(o *opts) error {
 		text := g.query(false, 1+c.r.intn(3), true)
 		c.emitQuery(text, g.syms, c.assignments(g.syms, nRandomAssign))
 	}
+	// (2b) histories: sequences of validations on stores that live through them (c20_seq.go)
+	c.seqStream(o.thorough())
 	// (3) random store configurations on their own
 	for i := 0; i < nRandomCfg; i++ {
 		c.randomCfgProgram()
